@@ -432,7 +432,7 @@ func classify(call string, err error, tr []fakep11.Event) string {
 			return "find-failed"
 		case "GenerateKeyPair":
 			return "generate-failed"
-		case "CreateObject":
+		case "CreateObject", "GenerateKey", "EncryptInit", "Encrypt", "UnwrapKey":
 			if call == "cert" {
 				return "create-failed"
 			}
@@ -518,8 +518,11 @@ func (w *world) run(b *beh) (tr []fakep11.Event, asked int, out []outRec, leaked
 		fail["GenerateKeyPair#1"] = "MECHANISM_INVALID"
 	case "gen-err":
 		fail["GenerateKeyPair#1"] = "DEVICE_ERROR"
-	case "imp-priv-refused":
+	case "imp-priv-refused", "imp-priv-wrapped", "imp-wrap-err":
 		fail["CreateObject#2"] = "TEMPLATE_INCONSISTENT"
+		if k.Mgmt == "imp-wrap-err" {
+			fail["UnwrapKey"] = "DEVICE_ERROR"
+		}
 	case "imp-priv-err":
 		fail["CreateObject#2"] = "DEVICE_ERROR"
 	case "imp-pub-err":
@@ -549,7 +552,7 @@ func (w *world) run(b *beh) (tr []fakep11.Event, asked int, out []outRec, leaked
 			}
 		}
 	}
-	w.m.Arm(fakep11.Knobs{Slots: slots, Tries0: k.Tries0, RightPin: secretOf["right"], LoggedIn: k.SessInfo == "user", Fail: fail})
+	w.m.Arm(fakep11.Knobs{Slots: slots, Tries0: k.Tries0, RightPin: secretOf["right"], LoggedIn: k.SessInfo == "user", Fail: fail, NoWrap: k.Mgmt == "imp-priv-refused"})
 	cfg := w.sessionCfg(k)
 	var pg passprompt.PasswordGetter
 	var g *getter
@@ -578,7 +581,7 @@ func (w *world) run(b *beh) (tr []fakep11.Event, asked int, out []outRec, leaked
 					key, err = tok.Generate("nolabel", token.KeyTypeRsa, 2048)
 				case "gen-bad-bits":
 					key, err = tok.Generate("gen", token.KeyTypeRsa, 512)
-				case "imp-rsa", "imp-priv-refused", "imp-priv-err", "imp-pub-err":
+				case "imp-rsa", "imp-priv-refused", "imp-priv-wrapped", "imp-wrap-err", "imp-priv-err", "imp-pub-err":
 					key, err = tok.Import("imp", w.rsa)
 				case "imp-ec":
 					key, err = tok.Import("imp", w.ec)
@@ -928,6 +931,40 @@ func Concurrent(args []string) {
 		}(s)
 	}
 	wg.Wait()
+	// two callers import the same certificate at the same moment (a slow token): the check for an existing copy and
+	// the write are one step - one caller writes it, the other is told it exists, the token sees no overlapping search
+	w.m.OnEvent = nil
+	before := len(w.m.Transcript())
+	w.m.SetDelay("FindObjects", 150*time.Millisecond)
+	leaf := w.leafFor(keys["k1"])
+	errs := make([]error, 2)
+	for i := range errs {
+		wg.Add(1)
+		go func(i int) { defer wg.Done(); errs[i] = tok.ImportCertificate(leaf, "base") }(i)
+	}
+	wg.Wait()
+	w.m.SetDelay("FindObjects", 0)
+	nOK, nExist := 0, 0
+	for _, e := range errs {
+		switch {
+		case e == nil:
+			nOK++
+		case errors.Is(e, sigerrors.ErrExist):
+			nExist++
+		}
+	}
+	r.Eval(true)
+	ncert := w.inventory().ChainCert
+	refused := ""
+	for _, e := range w.m.Transcript()[before:] {
+		if e.RV == "OPERATION_ACTIVE" || e.RV == "OPERATION_NOT_INITIALIZED" {
+			refused = e.Fn + " " + e.RV
+		}
+	}
+	if nOK != 1 || nExist != 1 || ncert != 1 || refused != "" {
+		r.Fail(map[string]string{"engine": "p11-concurrent", "kind": "certificate-import-race"}, map[string]any{"errors": fmt.Sprint(errs), "objects": ncert},
+			"two simultaneous imports of one certificate returned %v; the token holds %d copies; out-of-order call: %q (expected one success, one 'already exists', one copy, none)", errs, ncert, refused)
+	}
 	tok.Close()
 	lmu.Lock()
 	bw.Flush()
